@@ -23,6 +23,7 @@ modifier by a power of 1000 - `1K` = 1024, `1KB` = 1000; case and surrounding
 blanks are irrelevant), and sums in percent / bytes exactly as the property
 statement says.
 """
+from mc import modstate  # noqa: E402
 import copy
 import itertools
 import json
@@ -550,6 +551,7 @@ def run_history(payload):
 
 
 def run_payload(payload):
+    modstate.reset()        # module-level memos do not leak between cases
     if payload['kind'] == 'single':
         return run_single(payload)
     return run_history(payload)
@@ -1030,3 +1032,9 @@ def enabled_calls(store, creates, updates):
         if (cell, alloc) in store.allocs:
             out.append(u)
     return out
+
+
+# the real module is imported (and plugged) when this one is, so that the
+# record of the package's import-time state (mc/modstate.py) is taken after
+# whatever that import itself executes
+env()
